@@ -37,8 +37,10 @@ def rule_local_histogram(ctx, f, rid):
         ctx.ob(rid, "LocalHistogramCore::flush|sum", ok, "the batch sum handed over must be self.sum", site=b.raw["span"]["at"])
         ok = len(bk) == 1
         if ok:
-            ei = elem_of(bk[0]["idx"])
-            ev = elem_of(peel(bk[0]["call"].args[1]))
+            from pvrules.rules import is_zero_skip_filter
+            zf = lambda t_: is_zero_skip_filter(f, t_)   # noqa: E731
+            ei = elem_of(bk[0]["idx"], filter_ok=zf)
+            ev = elem_of(peel(bk[0]["call"].args[1]), filter_ok=zf)
             ok = bool(ei) and bool(ev) and ei[0] == ev[0] == SELF_FIELD("counts") and ei[2] == ["0"] and ev[2] == ["1"]
         ctx.ob(rid, "LocalHistogramCore::flush|buckets", ok, "bucket i of the shared histogram must receive counts[i]", site=b.raw["span"]["at"])
         cl = b.calls_to("LocalHistogramCore::clear")
